@@ -151,6 +151,22 @@ func bumpRV(rv reflect.Value) {
 	}
 }
 
+// bumpDeepRV modifies the first leaf reachable through first elements / pointees IN PLACE
+func bumpDeepRV(rv reflect.Value) {
+	switch rv.Kind() {
+	case reflect.Slice:
+		if rv.Len() > 0 {
+			bumpDeepRV(rv.Index(0))
+		}
+	case reflect.Pointer:
+		if !rv.IsNil() {
+			bumpDeepRV(rv.Elem())
+		}
+	default:
+		bumpRV(rv)
+	}
+}
+
 func postFn(n *Node, ps PostSpec, rec *Recorder) z.PostTransform {
 	return func(ptr any, ctx z.Ctx) error {
 		noteCtx(ctx, rec)
@@ -171,6 +187,11 @@ func postFn(n *Node, ps PostSpec, rec *Recorder) z.PostTransform {
 		case "inc":
 			if rv.IsValid() {
 				bumpRV(rv)
+			}
+			return nil
+		case "incdeep":
+			if rv.IsValid() {
+				bumpDeepRV(rv)
 			}
 			return nil
 		case "set":
